@@ -4,20 +4,37 @@ EXTENDS ForwardRefs
 Spells == {"direct", "str", "list", "dict", "opt", "union", "whole"}
 Fld(c, att, target, spell, cons) == [c |-> c, att |-> att, target |-> target, spell |-> spell, cons |-> cons]
 Perms == {<<"A", "B", "N">>, <<"A", "N", "B">>, <<"B", "A", "N">>, <<"B", "N", "A">>, <<"N", "A", "B">>, <<"N", "B", "A">>}
+\* the subclass S of A: absent, defined straight after A, or defined last
+RECURSIVE After(_, _)
+After(o, e) == IF o = <<>> THEN <<>> ELSE IF Head(o) = e THEN <<e, "S">> \o Tail(o) ELSE <<Head(o)>> \o After(Tail(o), e)
+WithS(o) == {o, After(o, "A"), o \o <<"S">>}
+UsesOf(o) == IF "S" \in Range(o) THEN {<<"S", "A">>, <<"A", "S">>, <<"S", "B">>, <<"B", "S">>} ELSE {<<"A", "B">>, <<"B", "A">>}
 OkProg(p) == Legal(p) /\ (p.future => \A x \in 1..Len(p.fields) : p.fields[x].spell \notin {"str", "whole"})
 ModuleInit ==
-  \E o \in Perms, fu \in BOOLEAN, us \in {<<"A", "B">>, <<"B", "A">>},
+  \E o0 \in Perms, fu \in BOOLEAN : \E o \in WithS(o0) : \E us \in UsesOf(o),
      t1 \in {"A", "B"}, s1 \in Spells, t2 \in {"B", "N"}, s2 \in Spells, c2 \in BOOLEAN,
      t3 \in {"A", "N"}, s3 \in Spells, c3 \in BOOLEAN :
-    prog = [ents |-> o, scope |-> "module", future |-> fu, uses |-> us, decoy |-> FALSE,
+    prog = [ents |-> o, scope |-> "module", future |-> fu, uses |-> us, decoy |-> FALSE, fscope |-> "none", varargs |-> FALSE,
             fields |-> << Fld("A", "f1", t1, s1, FALSE), Fld("A", "f2", t2, s2, c2), Fld("B", "g1", t3, s3, c3) >>]
 LocalInit ==
   \E d \in BOOLEAN, s1 \in Spells \ {"direct"}, s2 \in Spells \ {"direct"} :
-    prog = [ents |-> <<"A">>, scope |-> "local", future |-> FALSE, uses |-> <<"A", "A">>, decoy |-> d,
+    prog = [ents |-> <<"A">>, scope |-> "local", future |-> FALSE, uses |-> <<"A", "A">>, decoy |-> d, fscope |-> "none", varargs |-> FALSE,
             fields |-> << Fld("A", "f1", "A", s1, FALSE), Fld("A", "f2", "A", s2, FALSE) >>]
+\* a decorated function (module level, or nested in a factory function) whose parameter (p or *p) and return type name the
+\* module-level class B
+FuncInit ==
+  \E o \in {<<"B", "F">>, <<"F", "B">>}, fu \in BOOLEAN, fs \in {"module", "local"}, va \in BOOLEAN, s1 \in Spells, s2 \in Spells :
+    prog = [ents |-> o, scope |-> "module", future |-> fu, uses |-> <<"F", "F">>, decoy |-> FALSE, fscope |-> fs, varargs |-> va,
+            fields |-> << Fld("F", "p", "B", s1, FALSE), Fld("F", "r", "B", s2, FALSE) >>]
 \* under postponed evaluation nobody quotes names inside annotations
-MCInit == (ModuleInit \/ LocalInit) /\ OkProg(prog) /\ Init
+MCInit == (ModuleInit \/ LocalInit \/ FuncInit) /\ OkProg(prog) /\ Init
+MCSpecFunc == (FuncInit /\ OkProg(prog) /\ Init) /\ [][Next]_vars
 MCSpec == MCInit /\ [][Next]_vars
-ASSUME PrintT(<<"MENU", [spells |-> Spells, perms |-> Perms]>>)
+\* the programs whose first use is the subclass (witness family of MC_ForwardRefs_noinherit.cfg)
+MCSpecSub == (MCInit /\ prog.uses[1] = "S" /\ ~prog.future) /\ [][Next]_vars
+ASSUME PrintT(<<"MENU", [spells |-> Spells, perms |-> UNION {WithS(o) : o \in Perms}]>>)
+\* for the variants that must be refuted: report the first violating state and stop (printing an error trace re-generates the
+\* 2x10^5 initial states, which takes minutes)
+MRefute == P_Model \/ (PrintT(<<"MVIOL", prog.fields, prog.ents, prog.uses, outcome>>) /\ TLCSet("exit", TRUE))
 MJudge == P_Model \/ (PrintT(<<"MVIOL", prog.fields, prog.ents, prog.uses, outcome>>) /\ FALSE)
 =============================================================================
